@@ -1771,6 +1771,7 @@ def translate(ctx: Ctx) -> Dict[str, str]:
 def correspondence(ctx: Ctx) -> None:
     enc440, MM, S, X, MetadataError = _imports()
     S.FAILED_BUILDS.clear()
+    os.chdir(common.VERIF)
     run_corpus(ctx, enc440, MM, S, MetadataError)
     t2_texts(ctx, enc440)
     t2_direct(ctx, enc440, S)
@@ -1821,6 +1822,14 @@ def _build(ctx: Ctx, tag: str, entry: Dict[str, Any]) -> Dict[str, str]:
 
 def finding_status(ctx: Ctx, entry: Dict[str, Any], enc440, MM, S, MetadataError) -> Tuple[bool, Any]:
     """(still violates the property statement?, observation).  Independent of the model."""
+    os.chdir(common.VERIF)
+    try:
+        return _finding_status(ctx, entry, enc440, MM, S, MetadataError)
+    finally:
+        os.chdir(common.VERIF)        # a defective bracket must not leave the harness in a scratch directory
+
+
+def _finding_status(ctx: Ctx, entry: Dict[str, Any], enc440, MM, S, MetadataError) -> Tuple[bool, Any]:
     paths = _build(ctx, entry["id"], entry)
     kind = entry["check"]
     with Stubs(S):
@@ -2011,6 +2020,7 @@ def oracle_frame_sequence(ctx: Ctx, enc440, MM, S, MetadataError, seq: List[Dict
 def search(ctx: Ctx) -> Optional[Dict[str, Any]]:
     enc440, MM, S, X, MetadataError = _imports()
     rng = ctx.rng
+    os.chdir(common.VERIF)
     # sequences first: the frame condition (orders, failures, cwd)
     tried = 0
     for mm in ctx.mismatches:
@@ -2020,6 +2030,8 @@ def search(ctx: Ctx) -> Optional[Dict[str, Any]]:
             try:
                 why = oracle_frame_sequence(ctx, enc440, MM, S, MetadataError, c["sequence"], f"m{tried}")
             except Exception:
+                import traceback
+                ctx.notes.append("sequence oracle crashed: " + traceback.format_exc()[-600:])
                 why = None
             if why:
                 return {"kind": "sequence", "input": {"sequence": [{k: v for k, v in f.items() if not k.startswith("_")} for f in c["sequence"]]}, "why": why}
@@ -2028,6 +2040,9 @@ def search(ctx: Ctx) -> Optional[Dict[str, Any]]:
         try:
             why = oracle_frame_sequence(ctx, enc440, MM, S, MetadataError, seq, f"f{b}")
         except Exception:
+            import traceback
+            if len(ctx.notes) < 10:
+                ctx.notes.append("sequence oracle crashed: " + traceback.format_exc()[-600:])
             why = None
         if why:
             return {"kind": "sequence", "input": {"sequence": [{k: v for k, v in f.items() if not k.startswith("_")} for f in seq]}, "why": why}
@@ -2119,6 +2134,7 @@ def in_guard(d: Dict[str, Any]) -> bool:
 
 def replay(ctx: Ctx, payload: Dict[str, Any]) -> bool:
     enc440, MM, S, X, MetadataError = _imports()
+    os.chdir(common.VERIF)
     fi = payload.get("failing_input")
     if not fi:
         return False
